@@ -39,6 +39,8 @@ def cases(draw):
             'opt': draw(st.sampled_from(['none', 'none', 'none', '-k', '--usecompiled'])),
             'ignore_dir': draw(st.sampled_from([None, None] + sorted({os.path.basename(p) for p in subdirs})[:4])),
             'second': draw(st.sampled_from([None, None, 1, 2, 3])),
+            # a search path that does not exist (any more) or is a plain file, given besides the real ones
+            'ghost': draw(st.sampled_from([None, None, None, 'missing-test-path', 'missing-path-first', 'file-test-path'])),
             'create_seed': draw(st.integers(0, 10 ** 6)), 'scan_seed': draw(st.integers(0, 10 ** 6))}
 
 
@@ -125,8 +127,18 @@ class Cleanup(Part):
                     os.symlink(to, lp)
                     has_link = True
             args = ['--list-tests']
+            ghost = case.get('ghost')
+            if ghost == 'missing-path-first':
+                args += ['--path', os.path.join(os.path.dirname(base), 'zq_gone')]
             for r in case['roots']:
                 args += ['--path', os.path.join(base, r) if r else base]
+            if ghost == 'missing-test-path':
+                args += ['--test-path', os.path.join(os.path.dirname(base), 'zq_gone')]
+            elif ghost == 'file-test-path':
+                gf = os.path.join(os.path.dirname(base), 'zq_plain_file')
+                with open(gf, 'w') as fh:
+                    fh.write('not a directory\n')
+                args += ['--test-path', gf]
             if case['opt'] != 'none':
                 args.append(case['opt'])
             if case['ignore_dir']:
